@@ -505,6 +505,7 @@ macro_rules! all_for_elem {
 
 fn main() {
     let ctx = Ctx::from_args("C05");
+    ndv_checks::warm_up_f32();
     let rounds = ctx.n(400, 200000);
     let acc = ctx.parallel(|shard, nshards| {
         let mut acc = Acc::new();
